@@ -267,14 +267,18 @@ def ops_from_json(j):
     return [fix(o) for o in j["ops"]]
 
 
-def load_corpus(prop):
+def load_corpus(prop, world="struct"):
+    """the witnesses of corpus/<prop>/ written in the operations of `world` ("struct": structworld.Live, the default;
+    "items": itemworld.World)"""
     import os
     d = os.path.join(core.CORPUS_DIR, prop)
     out = []
     if os.path.isdir(d):
         for f in sorted(os.listdir(d)):
             if f.endswith(".json"):
-                out.append(ops_from_json(json.load(open(os.path.join(d, f)))))
+                j = json.load(open(os.path.join(d, f)))
+                if j.get("world", "struct") == world:
+                    out.append(ops_from_json(j) if world == "struct" else j["ops"])
     return out
 
 
